@@ -14,16 +14,17 @@ MANIFEST = {
             'a bit-parallel truth-table certificate with a proved soundness lemma (N.land/N.lor projections) shows that the '
             'merge-exchange comparator list of _sort sorts every input of length n <= 16 (n <= 20 in the thorough tier), also '
             'with key= (only < on keys) and reverse=; comparators are in range for all n; tournament min/max return an '
-            'element with extreme key, = fold Z.min / Z.max, min_max (pre-pass + halves, middle element) returns both '
-            'extremes, argmin/argmax return the FIRST extreme index with its value -- all for every length by strong '
+            'element with extreme key, = fold Z.min / Z.max, min_max (keyed pre-pass + halves, middle element) returns elements '
+            'with minimal resp. maximal key for every key (min_max_key_spec), argmin/argmax return the FIRST extreme index with its value -- all for every length by strong '
             'induction on the halving. The comparator list of the real _sort is extracted for every n <= 64 on every run '
             'and compared with the Coq list; secure runs are compared with the models and with Python oracles.',
     'note': 'PARTIAL: sortedness of merge exchange is proved only for n <= 16 (20 thorough), the bound is in the theorem; '
             'for 17..64 the network is identical to the model and is tested (all 0/1 inputs up to n = 16/22 on the extracted '
             'list, random inputs above). Trusted: Coq kernel + vm_compute; the value-level model of if_swap/if_else/< '
             '(secure arithmetic itself is covered by other properties); np_sort is tied only when the NumPy venv is present '
-            '(index sets of each round compared with the same comparator list). min_max with key= is REFUTED in the model '
-            'and on the implementation (finding F-C29-1). min() returns the last minimal element on key ties, max() the '
+            '(index sets of each round compared with the same comparator list). Former finding F-C29-1 (min_max ignored key= in '
+            'its pre-pass) is repaired in /repo by commit fb1729f; model and theorem follow the repaired code and keyed '
+            'min_max (numbers and list elements) is an ordinary case against oracle and model. min() returns the last minimal element on key ties, max() the '
             'first (allowed by the property; modelled exactly).',
     'technique': 'Coq proof (0-1 principle + verified truth-table certificate, strong induction for tournaments) + comparator-sequence extraction from the real code',
 }
@@ -339,24 +340,28 @@ def run(ctx):
                         m = max(xs, key=pk)
                         want = (xs.index(m), m)
                     if got != want:
-                        if fn == 'min_max' and usekey:
-                            ctx.violation('min_max-key-ignored-in-prepass', dict(key, got=got, want=want))
-                        else:
-                            ctx.violation('%s-wrong n=%d key=%s' % (fn, n, key['key']), dict(key, got=got, want=want))
+                        ctx.violation('%s-wrong n=%d key=%s' % (fn, n, key['key']), dict(key, got=got, want=want))
                     ctx.case(key, nontrivial=n >= 2 and len(set(xs)) < n, kind='secure ' + fn + ('/key' if usekey else ''))
                     kf = 'Z.opp' if usekey else 'zid'
-                    exprs.append('%s_model %s %s' % (fn, kf, zlist(xs)))
+                    exprs.append('%s_model %s %s%s' % (fn, kf, '0%Z ' if fn == 'min_max' else '', zlist(xs)))
                     meta.append(('sel', key, got))
     # selection on lists of numbers with key (which element wins on key ties)
     for n in ([1, 2, 3, 5, 8] if ctx.tier == 'quick' else range(1, 14)):
         ks = [rng.randint(0, 2) for _ in range(n)]
         ps = [(i, k) for i, k in enumerate(ks)]
-        for fn in ('min', 'max', 'argmin', 'argmax'):
+        for fn in ('min', 'max', 'min_max', 'argmin', 'argmax'):
             sx = [[secint(i), secint(k)] for i, k in ps]
-            r = getattr(mpc, fn)(sx, key=lambda e: e[1])
+            try:
+                r = getattr(mpc, fn)(sx, key=lambda e: e[1])
+            except Exception as e:   # noqa
+                ctx.violation('%s-raises pairs n=%d' % (fn, n), {'fn': fn, 'pairs': ps, 'exc': repr(e)})
+                continue
             if fn in ('min', 'max'):
                 got = tuple(canon_int(v) for v in out(r))
                 good = got in ps and got[1] == (min(ks) if fn == 'min' else max(ks))
+            elif fn == 'min_max':
+                got = tuple(tuple(canon_int(v) for v in out(e)) for e in r)
+                good = got[0] in ps and got[1] in ps and got[0][1] == min(ks) and got[1][1] == max(ks)
             else:
                 got = (canon_int(out(r[0])), tuple(canon_int(v) for v in out(r[1])))
                 ext = min(ks) if fn == 'argmin' else max(ks)
@@ -365,7 +370,7 @@ def run(ctx):
             if not good:
                 ctx.violation('%s-wrong pairs n=%d' % (fn, n), dict(key, got=got))
             ctx.case(key, nontrivial=n >= 2, kind='secure ' + fn + '/pairs')
-            exprs.append('%s_model snd %s' % (fn, coq_pairs(ps)))
+            exprs.append('%s_model snd %s%s' % (fn, '(0, 0)%Z ' if fn == 'min_max' else '', coq_pairs(ps)))
             meta.append(('selp', key, got))
     mpc.run(mpc.shutdown())
 
@@ -448,7 +453,7 @@ def run(ctx):
                     mism += 1
                     ctx.broken.append({'kind': 'correspondence', 'what': fn, 'case': mt[1], 'model': str(m), 'impl': str(mt[2])})
             elif mt[0] == 'selp':
-                m = opt(r)
+                m = (opt(r[0]), opt(r[1])) if mt[1]['fn'] == 'min_max' else opt(r)
                 if m != mt[2]:
                     mism += 1
                     ctx.broken.append({'kind': 'correspondence', 'what': mt[1]['fn'] + ' on pairs', 'case': mt[1], 'model': str(m), 'impl': str(mt[2])})
